@@ -66,15 +66,16 @@ Proof.
 Qed.
 Print Assumptions C04_heuristics_irrelevant.
 
-(* instance: the C03 simplex model as LP kernel - an explicit implication on its soundness (C03's theorems) *)
+(* instance: the C03 simplex model as LP kernel, called with the tolerance lp_eps eps = min(eps, 1e-10) as the code does
+   (commit cccee4d) - an explicit implication on its soundness (C03's theorems; discharged for eps = 0 in Props/C04_deep.v) *)
 Theorem C04_simplex_instance : forall eps gap_tol minimize max_iter c A b ints,
-  lp_sound (simplex_kernel eps) -> milp_input_ok eps c A b ints = true ->
+  lp_sound (simplex_kernel (lp_eps eps)) -> milp_input_ok eps c A b ints = true ->
   forall lns, lns_ok lns eps c A b ints ->
   forall warm_start heuristics lns_iterations solution_limit max_nodes r,
-    solve_milp (simplex_kernel eps) lns eps gap_tol minimize max_iter max_nodes c A b ints warm_start solution_limit
+    solve_milp (simplex_kernel (lp_eps eps)) lns eps gap_tol minimize max_iter max_nodes c A b ints warm_start solution_limit
       heuristics lns_iterations = Some r ->
     res_ok eps gap_tol minimize c A b ints r.
-Proof. exact (fun eps => C04_heuristics_irrelevant (simplex_kernel eps) eps). Qed.
+Proof. exact (fun eps => C04_heuristics_irrelevant (simplex_kernel (lp_eps eps)) eps). Qed.
 Print Assumptions C04_simplex_instance.
 
 (* discharging lp_sound: it follows from the three C03 soundness statements (the `_full_statement`s of Props/C03.v,
